@@ -287,7 +287,7 @@ theorem admitSegs_spec (sn0 conv una cwnd now : U32) :
     · have hn : nxt + 1 = sn0 + BitVec.ofNat 32 (L ++ [content s]).length := by
         rw [h1]; simp only [List.length_append, List.length_singleton, BitVec.ofNat_add, BitVec.add_assoc]; rfl
       have hb : BufS sn0 (L ++ [content s]) a
-          (buf ++ [{ s with conv := conv, cmd := BitVec.ofNat 8 IKCP_CMD_PUSH, sn := nxt, resendts := now }]) := by
+          (buf ++ [{ s with conv := conv, cmd := BitVec.ofNat 8 IKCP_CMD_PUSH, sn := nxt, ts := now, resendts := now }]) := by
         refine (h3.mono [content s]).append ⟨⟨?_, h4 s (List.mem_cons_self ..), fun _ => ?_⟩, trivial⟩
         · show nxt = _; rw [h1, h2]
         · rw [h2, List.getElem?_append_right (Nat.le_refl _)]; simp [content]
